@@ -56,10 +56,25 @@ func (Keeper).CalculateBaseFee
     ensures decrease: enabled && h != p.EnableHeight && T <= 18446744073709551615 && g < T
             ==> result != nil && *result == imax(b - ((b * (T - g)) / T) / den, floor)
     ensures fresh_result: result != nil ==> fresh(result)
+    // the three cases as one function of the gas figure (what the monotonicity lemma below is about)
+    ensures eip1559: enabled && h != p.EnableHeight && T <= 18446744073709551615 ==> result != nil && *result == NextBaseFee(b, g, T, den, floor)
     // `if parentBaseFee == nil { return nil }`: sdkmath.Int.BigInt() of a stored (non-nil) Int is never nil
     unreachable return: return nil#2
     // `if !parentGasTargetBig.IsUint64() { return nil }`: the gas limit is at most 2^64-1 and the multiplier at least 1
     unreachable return: return nil#3
+
+// C17: the next base fee as a function of the gas figure g against the target T
+specfunc NextBaseFee(b int, g int, T int, den int, floor int) int = ite(g == T || T == 0, b, ite(g > T, b + imax(1, ((b * (g - T)) / T) / den), imax(b - ((b * (T - g)) / T) / den, floor)))
+// "... and therefore monotone in g": more gas never gives a lower next base fee. Needs base >= floor: when governance has raised the
+// minimum gas price above the current base fee, a block below target lifts the fee to the floor while a block exactly on target
+// leaves it below it - the three cases of the statement are then not monotone, and this is what the code (and the statement) say
+lemma BaseFeeMonotone(b int, g1 int, g2 int, T int, den int, floor int)
+    requires b >= 0 && T > 0 && den > 0 && floor >= 0 && b >= floor && 0 <= g1 && g1 <= g2
+    ensures NextBaseFee(b, g1, T, den, floor) <= NextBaseFee(b, g2, T, den, floor)
+// the next base fee never goes below the floor once the base fee is at or above it, and never below zero
+lemma BaseFeeBounds(b int, g int, T int, den int, floor int)
+    requires b >= 0 && T > 0 && den > 0 && floor >= 0 && g >= 0
+    ensures NextBaseFee(b, g, T, den, floor) >= 0 && (b >= floor ==> NextBaseFee(b, g, T, den, floor) >= floor) && (g < T ==> NextBaseFee(b, g, T, den, floor) >= floor)
 
 // truncation commutes with the maximum against an integral value
 lemma TruncMax(a int, u int)
